@@ -306,6 +306,35 @@ def variant_magics(ctx, enum_path):
     return out
 
 
+def variant_frames(ctx, enum_path, side="r"):
+    """variant name -> (pad bytes before the payload, [payload type names], pad bytes after) for a tagged enum whose
+    variants carry their payload as tuple fields (`#[brw(pad_before = 2)] FileHeaderChunk`)."""
+    wm = model(ctx)
+    it = wm.items.by_path.get(enum_path)
+    if not it or it.get("kind") != "enum":
+        return None
+    out = {}
+    for v in it["variants"]:
+        fs = wm.fields_stream(it, v["fields"], side, wm.item_endian(it, side, None), None)
+        before = after = 0
+        tys = []
+        for x in fs:
+            if x.kind == "data":
+                tys.append(getattr(x, "ty", None))
+            elif x.kind in ("pad", "gap", "magic"):
+                if x.size is None:
+                    before = after = None
+                    break
+                if tys:
+                    after += x.size
+                else:
+                    before += x.size
+            else:
+                tys.append("?" + x.kind)
+        out[v["name"]] = (before, tys, after)
+    return out
+
+
 def w_codec(ctx, type_paths, pairs, rule="CODEC"):
     """Field converters: every field of the given types that is read through `map = f` and written through `map = g`
     uses a pair (f, g) of the reference table (name of the function, generic arguments ignored).  The table lists the
